@@ -134,6 +134,7 @@ def main(argv):
                 violations.append(v)
         except Exception as e:
             broken.append(f"bounded stand-in crashed: {type(e).__name__}: {e}\n{traceback.format_exc()[-1200:]}")
+    structural_undecided = []
     for full, unit_id, name, o in refuted:
         rep = None
         if rtc is not None and hasattr(rtc, "replay"):
@@ -156,9 +157,16 @@ def main(argv):
                 v["input"] = nat[0].get("input")
                 v["native"] = nat[0].get("what")
                 v["replayed"] = True
+            elif o.get("structural"):
+                # the obligation only pins the *shape* of a composition of uninterpreted library calls; a refutation
+                # without any native failure means "restructured", which is undecided, not a violation
+                structural_undecided.append((full, "refuted-structural", "composition of library calls changed; no native failure found"))
+                continue
             else:
                 v["replayed"] = False
         violations.append(v)
+
+    undecided.extend(structural_undecided)
 
     # ---- known findings
     kf = load_json(os.path.join(ROOT, "known_findings.json"), {"findings": []})
